@@ -29,6 +29,8 @@ AttrPool == <<AT(a_score, "eq", <<53>>), AT(a_score, "eq", <<54>>), AT(a_score, 
               AT(a_author, "eq", <<109,101>>), AT(a_author, "ne", <<109,101>>), AT(a_none, "eq", <<53>>),
               CI(fD, <<53>>), CI(fD, <<54>>), CI(fB, t_bar), CI(fC, t_bar), CI(fA, t_bar)>>
 RulePool == AttrPool \o <<LS(t_win), LS(t_lin), RC("contains_field", fB), RC("contains_field", fA), RC("is_sigma_rule", <<>>),
+              \* fieldK was mapped onto the TWO fields fieldK1 and fieldK2 (two items below the one that was there)
+              RC("contains_field", <<102,105,101,108,100,75,49>>), RC("contains_field", <<102,105,101,108,100,75>>),
               RC("is_sigma_correlation_rule", <<>>), RC("tag", t_tag), RC("tag", t_tagx), RC("applied", t_ren),
               RC("applied", t_nope), RC("applied", <<112,114,101>>), ST(t_k, t_v), ST(t_k, t_w),
               \* the state variable z holds the empty string
